@@ -294,7 +294,7 @@ func (s *scanner) ReadBase85String() (String, error) {
 
 	var res []byte
 	var pos int
-	var val uint32
+	var val uint64
 readLoop:
 	for {
 		b, err := s.Next()
@@ -309,9 +309,12 @@ readLoop:
 		case b == 'z' && pos == 0:
 			res = append(res, 0, 0, 0, 0)
 		case b >= '!' && b <= 'u':
-			val = val*85 + uint32(b-'!')
+			val = val*85 + uint64(b-'!')
 			pos++
 			if pos == 5 {
+				if val > math.MaxUint32 {
+					return nil, &postScriptError{eSyntaxerror, "base85 group out of range"}
+				}
 				res = append(res, byte(val>>24), byte(val>>16), byte(val>>8), byte(val))
 				pos = 0
 				val = 0
@@ -328,6 +331,9 @@ readLoop:
 	default:
 		for i := pos; i < 5; i++ {
 			val = val*85 + 84
+		}
+		if val > math.MaxUint32 {
+			return nil, &postScriptError{eSyntaxerror, "base85 group out of range"}
 		}
 		tail := []byte{byte(val >> 24), byte(val >> 16), byte(val >> 8), byte(val)}
 		res = append(res, tail[:pos-1]...)
